@@ -33,6 +33,7 @@ type verifC05Case struct {
 	Proto  string `json:"proto"`          // protocol version on the request line of the forwarded request
 	Many   bool   `json:"many,omitempty"` // one of the responses that are all held open at the same time
 	Status int    `json:"status,omitempty"` // status of the backend's response (0 = 200)
+	Method string `json:"method,omitempty"` // method of the forwarded request ("" = GET)
 }
 
 const verifC05Many = 40
@@ -155,8 +156,16 @@ func TestVerifC05(t *testing.T) {
 			if c := cases[id]; c != nil && c.Proto != "" {
 				proto = c.Proto
 			}
+			method := "GET"
+			if c := cases[id]; c != nil && c.Method != "" {
+				method = c.Method
+			}
 			mu.Unlock()
-			fmt.Fprintf(w, "GET /c05/%s %s\r\nHost: verif.example\r\nAccept: */*\r\n\r\n", id, proto)
+			if method == "GET" {
+				fmt.Fprintf(w, "GET /c05/%s %s\r\nHost: verif.example\r\nAccept: */*\r\n\r\n", id, proto)
+			} else {
+				fmt.Fprintf(w, "%s /c05/%s %s\r\nHost: verif.example\r\nAccept: */*\r\nContent-Type: application/json\r\nContent-Length: 15\r\n\r\n{\"stream\":true}", method, id, proto)
+			}
 		case strings.HasSuffix(r.URL.Path, "agent/response"):
 			mu.Lock()
 			ch, o := observed[id], obs[id]
@@ -269,6 +278,8 @@ func TestVerifC05(t *testing.T) {
 			if i == 0 {
 				c.Chunks = []int{1, 1, 1, 1, 1}
 			}
+			// streamed responses to requests of every method (a POST that is answered with an event stream)
+			c.Method = []string{"", "POST", "", "PUT", "DELETE", "", "PATCH"}[(i+2)%7]
 			if config == "plain" || config == "h2c" {
 				// streamed responses of every status class (an event stream may well be an error page that keeps growing)
 				c.Status = []int{200, 200, 200, 500, 206, 503, 404}[i%7]
